@@ -197,7 +197,7 @@ def split_corpus(path, wd, max_lines):
     end = json.dumps({"ev": "End", "seq": 0, "inst": ""}) + "\n"
     for line in open(path):
         is_reset = '"ev":"Reset"' in line[:400] or (line.startswith("{") and '"ev": "Reset"' in line[:400])
-        is_end = '"ev":"End"' in line[:60]
+        is_end = len(line) < 200 and json.loads(line).get("ev") == "End"
         if is_end:
             continue
         if out is None or (is_reset and count >= max_lines):
